@@ -180,8 +180,15 @@ func StringToNumber(s string) (n int64, f float64, tp NumberType) {
 	// If s is an hex number, it is parsed as a uint of 64 bits
 	if isHex {
 		us := s[2+i0:]
-		if len(us) > 16 {
-			us = us[len(us)-16:]
+		// The value wraps around modulo 2^64, so only the last 16 digits
+		// count, but the ones before must be hex digits too.
+		for len(us) > 16 {
+			c := us[0]
+			if !('0' <= c && c <= '9' || 'a' <= c && c <= 'f' || 'A' <= c && c <= 'F') {
+				tp = NaN
+				return
+			}
+			us = us[1:]
 		}
 		un, err := strconv.ParseUint(us, 16, 64)
 		if err != nil {
